@@ -179,6 +179,20 @@ def task(args):
             dl = (n % b["dl_every"] == 0) or bud[1] == 0
             rdl = n % b["real_dl_every"] == 0
             level, kind, detail, ntr, stream = check_one(geo, bud, cfgs, dl=dl, real_dl=rdl)
+            if kind is None and cfgs and n % 5 == 0:
+                # the same configuration, but the side samplers had another length when the scheduler was built
+                for delta in (2, -1):
+                    ic.RESIZE[0] = delta
+                    try:
+                        level, kind, detail, ntr2, _ = check_one(geo, bud, cfgs, dl=False, real_dl=False)
+                    finally:
+                        ic.RESIZE[0] = 0
+                    p.evaluations += 1
+                    p.traces += 1
+                    p.transitions += ntr2
+                    if kind is not None:
+                        kind = kind + "|side_sampler_resized_after_construction"
+                        break
             p.evaluations += 1
             p.traces += 1
             p.transitions += ntr
